@@ -50,7 +50,8 @@ extern char *mpt_array_string(MPT_STRUCT(array) *arr)
 	if (!(sep = mpt_array_slice(arr, len, 1))) {
 		return 0;
 	}
-	str = (char *) (buf + 1);
+	/* buffer may have been replaced */
+	str = (char *) (arr->_buf + 1);
 	*sep = '\0';
 	
 	return str;
